@@ -11,6 +11,7 @@ TStep(e) ==
     [] e.a = "Pause"  -> EvPause(e.t, e.lv, e.now)
     [] e.a = "Stop"   -> EvStop(e.t, e.now)
     [] e.a = "Sleep"  -> EvSleep(e.now)
+    [] e.a = "Outside" -> EvOutside(e.d)
     [] e.a = "Crash"  -> EvCrash
 TNext == /\ l <= Len(Traces[tid].ev) /\ TStep(Traces[tid].ev[l]) /\ l' = l + 1 /\ tid' = tid /\ UNCHANGED <<cf, progV>>
 TSpec == TInit /\ [][TNext]_tvars
